@@ -6,6 +6,10 @@ ALL = ["C%02d" % i for i in range(1, 20)]
 
 # id -> (technique, level text, level note, design ref)
 CLAIMED = {
+ "C01": ("enumeration of build configurations with the real binary, every built file judged by the reference parser apparmor_parser 3.0.8 (differential against the reference implementation)",
+         "The shipped tree is built with the real prebuild binary - all 90 primary configurations in thorough (plus full DFA compilation of 10), a seeded covering sample of 8 in quick - and every top-level policy file of each build is parsed by the reference parser over an overlay of the upstream policy directory and the build output; abstractions, tunables and mappings are exercised through the include closure of the profiles, which is measured and reported. For ABI 4 only the normalisation the property grants is applied.",
+         "Trusts apparmor_parser 3.0.8 + the upstream 3.0.8 policy tree as the reference (rule kinds and flags newer than that are unseen, as the property allows); for version 4.1 the five files configure removes are taken from the source tree as stand-ins for upstream 4.1; the ABI-4 normaliser is a line tokenizer in c01_test.go.",
+         "DESIGN.md §2 C01"),
  "C17": ("exhaustive enumeration of the ~355 shipped rules x --full configurations with the real binary (metamorphic: full vs normal build), plus rapid-generated profiles through the registered builder chain vs. an independent line tokenizer",
          "Every source rule written rPUx / rUx without a target is located by an independent tokenizer and looked up (same file, path token, ordinal) in real --full builds - all 45 configurations in thorough, a covering sample of 6 in quick - where its access token must be 'rpx'; the normal build of the same configuration may differ from the source in letter case only. Generated profiles (all spacing / qualifier / comment shapes and look-alikes) go through the in-process builder chain of a full build with complain/enforce/abi3 variants.",
          "Trusts the line tokenizer in c17_test.go and the pairing of source and built rules by case-folded path token and ordinal; rules absent from a build (ignored file, only/exclude filter) are counted, not judged.",
